@@ -86,7 +86,8 @@ func (w *World) execOverlap(op hx.Zs) []hx.Zs {
 		return nil
 	}
 	td, call := op[2:2+n], op[2+n:]
-	okTd := td[0] == 13 || td[0] == 6 || td[0] == 5
+	isDel := td[0] == 8 || td[0] == 10 // a delete call of p, parked inside the registry's critical section
+	okTd := td[0] == 13 || td[0] == 6 || td[0] == 5 || isDel
 	okCall := call[0] >= 7 && call[0] <= 10
 	if !okTd || !okCall || td[1] == call[1] {
 		return nil // not an overlap: nothing happens (as in the model)
@@ -94,24 +95,46 @@ func (w *World) execOverlap(op hx.Zs) []hx.Zs {
 	q, ctr := call[1], call[2]
 	d := &overlap{sub: call[0] == 7 || call[0] == 8, entered: make(chan struct{}), done: make(chan struct{}),
 		deliver: func() { w.execOp(call) }}
+	if isDel {
+		// the delete reaches the yield point between its filter and its store (on the unchanged code:
+		// holding the registry mutex): q's call is delivered there.  The removal event that follows
+		// is not used as a trigger for deletes.
+		d.atYield = "RemoveSubscription.filtered"
+		if td[0] == 10 {
+			d.atYield = "RemoveBinding.filtered"
+		}
+		spine.VerifSetYield(func(point string) { w.overlapYield(d, point) })
+	}
 	w.mu.Lock()
 	w.ov = d
 	w.mu.Unlock()
 	ret := w.execOp(td)
+	if isDel {
+		spine.VerifSetYield(ChainYield)
+	}
 	w.mu.Lock()
 	started := d.started
 	d.started = true // no removal event of that registry: the call is delivered now
 	w.ov = nil
 	w.mu.Unlock()
+	if started && isDel {
+		ovCount("call-delivered-inside-delete-critical-section")
+	} else if !started && isDel {
+		ovCount("call-delivered-after-refused-delete")
+	}
 	if started {
-		ovCount("call-delivered-inside-removal-cascade")
+		if !isDel {
+			ovCount("call-delivered-inside-removal-cascade")
+		}
 		select {
 		case <-d.done:
 		case <-time.After(10 * time.Second):
 			ret = append(ret, hx.Zs{94})
 		}
 	} else {
-		ovCount("call-delivered-after-teardown-without-removal-event")
+		if !isDel {
+			ovCount("call-delivered-after-teardown-without-removal-event")
+		}
 		d.deliver()
 	}
 	out := append(w.drain(22), ret...)
